@@ -345,3 +345,119 @@ def _closure(a, states):
                 seen.add(d)
                 stack.append(d)
     return seen
+
+
+def exponential_ambiguity(a):
+    """Does the (epsilon-)NFA have exponential degree of ambiguity: a state q and a word w with two DIFFERENT paths q -w-> q?
+    (then w^n has 2^n runs, and a backtracking matcher that fails after w^n tries them all).
+    Paths are compared as sequences of macro-steps (a simple epsilon path followed by one consuming transition), so that one side merely lagging
+    behind on epsilon moves is not a difference.  Pair graph: nodes (p, p') of states reached after a consuming transition (or the start);
+    an edge for every pair of macro-steps with intersecting labels; EDA iff a strongly connected component holds a diagonal node and either an
+    off-diagonal node or a diagonal-to-diagonal edge made of two different macro-steps.  Returns None or (state, description)."""
+    out = {}
+    for idx, (s, l, d) in enumerate(a.trans):
+        out.setdefault(s, []).append((idx, l, d))
+    reach, st = set(), ([a.start] if a.start is not None else [])
+    while st:
+        q = st.pop()
+        if q in reach:
+            continue
+        reach.add(q)
+        st += [d for _, _, d in out.get(q, [])]
+    rev = {}
+    for s, l, d in a.trans:
+        rev.setdefault(d, []).append(s)
+    co, st = set(), list(a.finals)
+    while st:
+        q = st.pop()
+        if q in co:
+            continue
+        co.add(q)
+        st += rev.get(q, [])
+    live = reach & co
+    macro_cache = {}
+
+    def macros(p):
+        """[(macro-step id, label, target)] from p"""
+        if p in macro_cache:
+            return macro_cache[p]
+        res = []
+
+        def dfs(q, path, seen):
+            for idx, l, d in out.get(q, []):
+                if d not in live:
+                    continue
+                if l is None:
+                    if d not in seen:
+                        dfs(d, path + (idx,), seen | {d})
+                else:
+                    res.append((path + (idx,), l, d))
+        dfs(p, (), {p})
+        macro_cache[p] = res
+        return res
+
+    def meet(l, l2):
+        return (isinstance(l, CS) and isinstance(l2, CS) and bool(l & l2)) or (isinstance(l, str) and l == l2)
+
+    def succ(node):
+        p, q = node
+        for m1, l1, d1 in macros(p):
+            for m2, l2, d2 in macros(q):
+                if meet(l1, l2):
+                    yield (d1, d2), (p == q and m1 != m2)
+    index, low, onst, stack, comps = {}, {}, set(), [], []
+    counter = [0]
+    for q0 in sorted(live):
+        root = (q0, q0)
+        if root in index:
+            continue
+        index[root] = low[root] = counter[0]
+        counter[0] += 1
+        stack.append(root)
+        onst.add(root)
+        work = [(root, iter(list(succ(root))))]
+        while work:
+            v, it_ = work[-1]
+            advanced = False
+            for (w, _c) in it_:
+                if w not in index:
+                    index[w] = low[w] = counter[0]
+                    counter[0] += 1
+                    stack.append(w)
+                    onst.add(w)
+                    work.append((w, iter(list(succ(w)))))
+                    advanced = True
+                    break
+                elif w in onst:
+                    low[v] = min(low[v], index[w])
+            if advanced:
+                continue
+            work.pop()
+            if work:
+                u = work[-1][0]
+                low[u] = min(low[u], low[v])
+            if low[v] == index[v]:
+                comp = []
+                while True:
+                    w = stack.pop()
+                    onst.discard(w)
+                    comp.append(w)
+                    if w == v:
+                        break
+                comps.append(comp)
+    for comp in comps:
+        cs = set(comp)
+        cyclic = len(comp) > 1 or any(w in cs for w, _ in succ(comp[0]))
+        if not cyclic:
+            continue
+        diag = [n for n in comp if n[0] == n[1]]
+        if not diag:
+            continue
+        off = [n for n in comp if n[0] != n[1]]
+        if off:
+            return diag[0][0], 'two different paths around state %d over the same text (they pass through states %d and %d)' % (diag[0][0], off[0][0], off[0][1])
+        for n in diag:
+            for w, distinct in succ(n):
+                if distinct and w in cs:
+                    return n[0], 'two different epsilon routes from state %d to state %d over the same character, inside a loop' % (n[0], w[0])
+    return None
